@@ -40,6 +40,9 @@ def make_model(spec, decorated=True):
     import cobra
     kind, k = spec
     rng = random.Random(f"C13-model-{kind}-{k}")
+    if kind == "shipped":
+        from cobra.io import load_model
+        return load_model(k)
     if kind == "rnd":
         m = gen.random_model(rng, n_mets=rng.randint(2, 4), n_rxns=rng.randint(2, 5),
                              bounds=gen.BOUNDS if rng.random() < 0.6 else gen.SAFE_BOUNDS, with_groups=True)
@@ -97,6 +100,8 @@ def model_specs(tier, seed):
     """hand-made ones + random ones, balanced over statuses"""
     want = {"optimal": 5, "infeasible": 2, "unbounded": 2} if tier == "quick" else {"optimal": 30, "infeasible": 8, "unbounded": 8}
     specs = [["hand", h] for h in HAND]
+    if tier != "quick":
+        specs += [["shipped", "textbook"], ["shipped", "mini"]]
     got = {k: 0 for k in want}
     k = seed * 10000
     while any(got[c] < want[c] for c in want) and k < seed * 10000 + 3000:
@@ -326,6 +331,10 @@ def analyses(tier):
 # quantities that are NOT uniquely defined are not compared between the two calls: only the kind of outcome is
 REPEAT_OUTCOME_ONLY = ("gapfill:", "fastcc:")
 BIG_M = ("room:", "gapfill:", "minimal_medium:mip")
+# on the shipped models (thorough tier) the variants that solve one MILP per gene / reaction or many loopless LPs are left out
+SHIPPED_SKIP = ("method=room", "method=linear room", "method=moma", "room:milp", "loopless=True,fraction=0.5",
+                "loopless=True,fraction=0.9", "loopless=True,fraction=1.0,pfba_factor=1.0", "gapfill:no-demand",
+                "gapfill:penalties", "minimal_medium:mip,2", "geometric_fba:processes=2")
 
 _A = {}
 
@@ -450,6 +459,8 @@ def tasks_for(tier, seed):
     tasks = []
     for spec in specs:
         for lab in labels:
+            if spec[0] == "shipped" and any(x in lab for x in SHIPPED_SKIP):
+                continue
             for ctx in (False, True):
                 tasks.append({"model": spec, "analysis": lab, "ctx": ctx})
     return tasks, specs
